@@ -45,11 +45,11 @@ def run(ctx):
     # ---- inputs ---------------------------------------------------------
     checked_pools()
     texts = []
-    scripts = splitfam.emit_scripts(ctx, EVERYTHING, depth, 'C04_emit', simulate=500 if quick else 30000,
+    scripts = splitfam.emit_scripts(ctx, EVERYTHING, depth, 'C04_emit', simulate=500 if quick else 6000,
                                     maxlen=28 if quick else 40, minlen=2, seed=ctx.seed * 13 + 5)
-    scripts += splitfam.emit_scripts(ctx, ['junk'], 2, 'C04_emit_junk', simulate=800 if quick else 30000,
+    scripts += splitfam.emit_scripts(ctx, ['junk'], 2, 'C04_emit_junk', simulate=800 if quick else 6000,
                                      maxlen=14 if quick else 20, softlen=12 if quick else 18, minlen=2, seed=ctx.seed * 17 + 9)
-    cover = splitfam.cover_scripts(ctx, EVERYTHING, depth, 'C04_cover', transitions=not quick)
+    cover = splitfam.cover_scripts(ctx, EVERYTHING, 4, 'C04_cover', transitions=not quick)
     for i, c in enumerate(cover):
         for j in (range(len(splitfam.PROBES)) if not quick or i % 2 == 0 else [i]):
             scripts.append({'hist': splitfam.with_probe(c['hist'], j)})
@@ -63,7 +63,7 @@ def run(ctx):
         texts.append(spell(s['hist'], rng, canonical=False))
     nscripts = len(texts)
     texts += list(sigma_strings(SIGMA_QUICK, 2 if quick else 3))
-    texts += [random_unicode(rng, 60) for _ in range(1000 if quick else 20000)]
+    texts += [random_unicode(rng, 60) for _ in range(1000 if quick else 8000)]
     fx = repo_texts()
     texts += [t[:300] for t in fx]
     texts += ['select 1;\n' + t[:250] + ';\nselect 2' for t in fx]
